@@ -1,5 +1,196 @@
 package main
 
-import "strings"
+import (
+	"context"
+	"fmt"
+	"go/ast"
+	"reflect"
+	"sort"
+	"strconv"
+	"strings"
+	"unicode"
+	"unicode/utf8"
 
-func factsMore(ctx *Ctx, b *strings.Builder) {}
+	"github.com/vipnode/vipnode/v2/agent"
+	"github.com/vipnode/vipnode/v2/pool"
+	"github.com/vipnode/vipnode/v2/pool/payment"
+	"github.com/vipnode/vipnode/v2/pool/status"
+)
+
+// GMethod is one exported method of a receiver as Go's reflection reports it.
+type GMethod struct {
+	Name   string   `json:"name"`
+	Args   []string `json:"args"` // kinds of the positional parameters (context excluded)
+	ArgsOK bool     `json:"args_exported_or_builtin"`
+	RetOK  bool     `json:"return_layout_supported"`
+}
+
+var (
+	typeOfError   = reflect.TypeOf((*error)(nil)).Elem()
+	typeOfContext = reflect.TypeOf((*context.Context)(nil)).Elem()
+)
+
+func exportedOrBuiltin(t reflect.Type) bool {
+	for t.Kind() == reflect.Ptr {
+		t = t.Elem()
+	}
+	r, _ := utf8.DecodeRuneInString(t.Name())
+	return unicode.IsUpper(r) || t.PkgPath() == ""
+}
+
+func kindName(t reflect.Type) string {
+	switch t.Kind() {
+	case reflect.String:
+		return "KString"
+	case reflect.Int:
+		return "KInt"
+	case reflect.Int64:
+		return "KInt64"
+	case reflect.Uint64:
+		return "KUint64"
+	case reflect.Bool:
+		return "KBool"
+	case reflect.Float64, reflect.Float32:
+		return "KFloat"
+	case reflect.Struct:
+		return "KStruct"
+	case reflect.Slice:
+		return "KSlice"
+	case reflect.Map:
+		return "KMap"
+	case reflect.Ptr:
+		return "KPtr"
+	}
+	return "KIface"
+}
+
+// methodTable lists the exported methods of a receiver by Go reflection (not through jsonrpc2).
+func methodTable(receiver interface{}) []GMethod {
+	t := reflect.TypeOf(receiver)
+	var out []GMethod
+	for i := 0; i < t.NumMethod(); i++ {
+		m := t.Method(i)
+		if m.PkgPath != "" {
+			continue
+		}
+		g := GMethod{Name: m.Name, ArgsOK: true, Args: []string{}}
+		for a := 1; a < m.Type.NumIn(); a++ {
+			at := m.Type.In(a)
+			if !exportedOrBuiltin(at) {
+				g.ArgsOK = false
+			}
+			if at == typeOfContext {
+				continue
+			}
+			g.Args = append(g.Args, kindName(at))
+		}
+		switch m.Type.NumOut() {
+		case 0, 1:
+			g.RetOK = true
+		case 2:
+			g.RetOK = m.Type.Out(1) == typeOfError
+		}
+		out = append(out, g)
+	}
+	sort.Slice(out, func(i, j int) bool { return out[i].Name < out[j].Name })
+	return out
+}
+
+func cString(s string) string { return "\"" + strings.ReplaceAll(s, "\"", "\"\"") + "\"" }
+
+func gmethodsCoq(ms []GMethod) string {
+	var items []string
+	for _, m := range ms {
+		items = append(items, fmt.Sprintf("{| gm_name := %s; gm_args := [%s]; gm_args_ok := %s; gm_ret_ok := %s |}",
+			cString(m.Name), strings.Join(m.Args, "; "), cBool(m.ArgsOK), cBool(m.RetOK)))
+	}
+	return "[" + strings.Join(items, ";\n    ") + "]"
+}
+
+func stringsCoq(l []string) string {
+	q := make([]string, len(l))
+	for i, s := range l {
+		q[i] = cString(s)
+	}
+	return "[" + strings.Join(q, "; ") + "]"
+}
+
+// registerCalls reads the literal arguments of X.Register(prefix, receiver, allow...) calls.
+func registerCalls(repo, file string) [][]string {
+	_, f := parseFile(repo, file)
+	var out [][]string
+	ast.Inspect(f, func(n ast.Node) bool {
+		c, ok := n.(*ast.CallExpr)
+		if !ok {
+			return true
+		}
+		s, ok := c.Fun.(*ast.SelectorExpr)
+		if !ok || (s.Sel.Name != "Register" && s.Sel.Name != "RegisterMethod") || len(c.Args) < 2 {
+			return true
+		}
+		row := []string{s.Sel.Name}
+		for i, a := range c.Args {
+			switch v := a.(type) {
+			case *ast.BasicLit:
+				u, _ := strconv.Unquote(v.Value)
+				row = append(row, u)
+			case *ast.Ident:
+				row = append(row, "$"+v.Name)
+			default:
+				row = append(row, fmt.Sprintf("$arg%d", i))
+			}
+		}
+		out = append(out, row)
+		return true
+	})
+	return out
+}
+
+// productionRegistrations: (prefix, receiver variable, allow-list) of pool.go's Register calls.
+type prodReg struct {
+	Prefix, Recv string
+	Allow        []string
+}
+
+func productionRegistrations(repo string) []prodReg {
+	var out []prodReg
+	for _, row := range registerCalls(repo, "pool.go") {
+		if row[0] != "Register" || len(row) < 3 {
+			continue
+		}
+		out = append(out, prodReg{Prefix: row[1], Recv: strings.TrimPrefix(row[2], "$"), Allow: row[3:]})
+	}
+	return out
+}
+
+func factsMore(ctx *Ctx, b *strings.Builder) {
+	// production receivers by reflection
+	recv := map[string][]GMethod{
+		"p":         methodTable(&pool.VipnodePool{}),
+		"payment":   methodTable(&payment.PaymentService{}),
+		"dashboard": methodTable(&status.PoolStatus{}),
+	}
+	b.WriteString("(* exported methods of the production receivers, by Go reflection *)\n")
+	for _, k := range []string{"p", "payment", "dashboard"} {
+		fmt.Fprintf(b, "Definition methods_%s : list gmethod :=\n   %s.\n", k, gmethodsCoq(recv[k]))
+	}
+	fmt.Fprintf(b, "Definition methods_agent : list gmethod :=\n   %s.\n", gmethodsCoq(methodTable(&agent.Agent{})))
+	b.WriteString("(* the Register calls of pool.go: prefix, receiver, allow-list literals *)\n")
+	var rows []string
+	for _, r := range productionRegistrations(ctx.Repo) {
+		if _, ok := recv[r.Recv]; !ok {
+			rows = append(rows, fmt.Sprintf("(%s, [], %s) (* unknown receiver %s *)", cString(r.Prefix), stringsCoq(r.Allow), r.Recv))
+			continue
+		}
+		rows = append(rows, fmt.Sprintf("(%s, methods_%s, %s)", cString(r.Prefix), r.Recv, stringsCoq(r.Allow)))
+	}
+	fmt.Fprintf(b, "Definition pool_registrations : list (string * list gmethod * list string) :=\n  [%s].\n", strings.Join(rows, ";\n   "))
+	// agent.go: RegisterMethod(rpcName, receiver, methodName)
+	var arows []string
+	for _, row := range registerCalls(ctx.Repo, "agent.go") {
+		if row[0] == "RegisterMethod" && len(row) >= 4 {
+			arows = append(arows, fmt.Sprintf("(%s, %s)", cString(row[1]), cString(row[3])))
+		}
+	}
+	fmt.Fprintf(b, "Definition agent_registrations : list (string * string) :=\n  [%s].\n\n", strings.Join(arows, "; "))
+}
